@@ -52,6 +52,9 @@ class C18(Prop):
         shape = s.draw(3, "shape")
         raises = s.weighted((4, 2, 1, 1), "raises")  # 0 value, 1 Exception, 2 BaseException subclass, 3 RuntimeError subclass
         awaitable_result = (not raises) and s.chance(1, 4, "awaitable-result")
+        fn_spawns = kind.startswith("traced") and s.chance(1, 3, "fn-spawns")
+        # the same wrapper object is used again from a second event loop (asyncio.run twice)
+        second_loop = ("loop," not in kind) and not fn_spawns and s.chance(1, 5, "second-loop")
         depth = s.draw(4, "depth")
         nest = [s.draw(2, "nest-kind") for _ in range(depth)]
         leak = bool(s.draw(2, "leak"))
@@ -59,7 +62,7 @@ class C18(Prop):
         beats = 1 + s.draw(4, "beats")
         form = s.draw(3, "call-form")
         sim.program = {"kind": kind, "shape": SHAPES[shape], "raises": raises, "awaitable_result": int(awaitable_result),
-                       "nesting": nest, "leak": leak,
+                       "nesting": nest, "leak": leak, "function_spawns_a_task": int(fn_spawns), "called_again_on_a_second_event_loop": int(second_loop),
                        "parks": parks, "heartbeats": beats, "call_form": form}
         if depth:
             sim.nontrivial = True
@@ -100,6 +103,18 @@ class C18(Prop):
                 seen["state"] = ("nocontext", None)
             except MissingState:
                 seen["state"] = ("missing", None)
+            if fn_spawns:
+                # the function starts a background task of the *caller's* scope and returns without waiting for it
+                async def background():
+                    seen["bg"] = "started"
+                    try:
+                        forced = await sim.gate("bg", held=True)
+                        seen["bg"] = "forced" if forced else "released"
+                    except asyncio.CancelledError:
+                        seen["bg"] = "cancelled"
+                        raise
+                seen["bg"] = "spawned"
+                ctx.spawn(background)
             if leak:
                 try:
                     ctx.updated(make_state(0, 777)).__enter__()
@@ -318,6 +333,7 @@ class C18(Prop):
             else:
                 out["kind"], out["obj"] = "value", r
             out["after"] = caller_state()
+            out["bg_at_return"] = seen.get("bg")
             sim.event("call-done", out["kind"])
 
         async def main():
@@ -327,8 +343,44 @@ class C18(Prop):
                 await call_site(0)
             await asyncio.wait([hb_task])
 
+        out2 = {}
+
+        async def main2():
+            async with ctx.scope("root2", make_state(0, 2)):
+                try:
+                    if kind == "traced-sync":
+                        r = wrapped(*call_args, **call_kwargs)
+                    else:
+                        r = await wrapped(*call_args, **call_kwargs)
+                except SimStop:
+                    raise
+                except BaseException as exc:  # noqa: BLE001
+                    out2["kind"], out2["obj"] = "raised", exc
+                else:
+                    out2["kind"], out2["obj"] = "value", r
+
         # the outermost state of the call site (root scope supplies T0(v=1))
         outcome = sim.run(main)
+        if second_loop and outcome == "ok" and sim.violation is None and not sim.harness_errors and sim.main.exception() is None:
+            first_calls = seen["calls"]
+            snapshot, jobs_first = dict(seen), len(jobs)
+            sim.next_loop()
+            outcome = sim.run(main2)
+            if outcome == "ok" and sim.main.exception() is None:
+                want2 = ("raised", exc_obj) if raises else ("value", result_obj)
+                if out2.get("kind") != want2[0] or out2.get("obj") is not want2[1]:
+                    sim.fail_post("outcome", f"{kind}: called again from a second event loop the caller got {out2.get('kind')} "
+                                  f"{out2.get('obj')!r}, the function produced {want2[0]} {want2[1]!r}", kind=kind,
+                                  got=type(out2.get("obj")).__name__, second_loop=1)
+                    return
+                if seen["calls"] != first_calls + 1:
+                    sim.fail_post("call-count", f"{kind}: second call (second event loop) ran the body {seen['calls'] - first_calls} times",
+                                  kind=kind, second_loop=1)
+                    return
+                # the remaining rules judge the first call
+                seen.clear()
+                seen.update(snapshot)
+                del jobs[jobs_first:]
         if sim.violation is not None or sim.harness_errors:
             return
         if outcome == "deadlock":
@@ -389,6 +441,10 @@ class C18(Prop):
         if uses_thread and (after[0] != inner[0] or after[1] is not inner[1]):
             sim.fail_post("context-leaked", f"{kind}: after the call the caller sees T0 = {after}, before the call {inner} (leak={leak})",
                           kind=kind)
+            return
+        if fn_spawns and out.get("bg_at_return") in ("forced", "cancelled", "released"):
+            sim.fail_post("waited-for-spawned-task", f"{kind}: the call only returned after the task the function had spawned into the "
+                          f"caller's scope was {out['bg_at_return']}", kind=kind)
             return
         # traced: a nested scope named after the function with arguments and outcome
         if kind.startswith("traced"):
